@@ -22,6 +22,14 @@ PROPS = {
     "C08": {"modules": ["PP.Props.C08"], "level": "proof"},
     "C09": {"modules": ["PP.Props.C09"], "level": "proof"},
     "C18": {"modules": ["PP.Props.C18"], "level": "proof"},
+    "C06": {"modules": ["PP.Props.C06"], "level": "proof"},
+    "C10": {"modules": ["PP.Props.C10"], "level": "proof"},
+    "C13": {"modules": ["PP.Props.C13"], "level": "proof"},
+    "C14": {"modules": ["PP.Props.C14"], "level": "proof"},
+    "C15": {"modules": ["PP.Props.C15"], "level": "proof"},
+    "C16": {"modules": ["PP.Props.C16"], "level": "proof"},
+    "C17": {"modules": ["PP.Props.C17"], "level": "proof"},
+    "C20": {"modules": ["PP.Props.C20"], "level": "other"},
     "C03": {"modules": ["PP.Props.C03"], "level": "other"},
     "C11": {"modules": ["PP.Props.C11"], "level": "other"},
     "C12": {"modules": ["PP.Props.C12"], "level": "other"},
